@@ -110,14 +110,13 @@ Print Assumptions {pid}_periodic_disk_revolve.
 
 def hrev_safety(pid, cls):
     e = "err_" + cls
-    return f"""(* HRevolve (two levels): every N, every RAM count >= 1, any disk count and cost vector for which the constructor returns (its
-   dynamic program is not proved total); budgets RAM = snapshots_in_ram, DISK unbounded (the DISK budget itself: C03_hrevolve_refuted).
-   As for DiskRevolve the only verdict other than "no error" is E_leftover at the final EndReverse (D8) *)
-Theorem {pid}_hrevolve : forall (N ram disk uf ub wd rd : Z) (L : list Ops.op) (k : nat), 1 <= N -> 1 <= ram ->
-  RevConv.sequence RevConv.KHRevolve N ram disk uf ub wd rd = Ok L ->
+    return f"""(* HRevolve (two levels): every N, every RAM count >= 1, every disk count >= 0, every cost vector (the constructor's dynamic
+   program and recursion are proved total: HRevTotal); budgets RAM = snapshots_in_ram, DISK unbounded (the DISK budget itself:
+   C03_hrevolve_refuted).  As for DiskRevolve the only verdict other than "no error" is E_leftover at the final EndReverse (D8) *)
+Theorem {pid}_hrevolve : forall (N ram disk uf ub wd rd : Z) (k : nat), 1 <= N -> 1 <= ram -> 0 <= disk ->
   exists o0 m ls, run_case (PRev RevConv.KHRevolve N ram disk uf ub wd rd) (DiskRun.disk_xparams N ram) (repeat Next k) = Ok (o0, m, ls) /\\ no_err {e} m /\\ no_raise ls.
 Proof.
-  intros N ram disk uf ub wd rd L k H1 H2 HL. destruct (HRevRun.hrevolve_run N ram disk uf ub wd rd L k H1 H2 HL) as (o0 & m & ls & E & Hl & Hm).
+  intros N ram disk uf ub wd rd k H1 H2 H3. destruct (HRevTop.hrevolve_run_total N ram disk uf ub wd rd k H1 H2 H3) as (o0 & m & ls & E & Hl & Hm).
   exists o0, m, ls. split; [exact E|]. split; [apply (DiskRun.leftover_no_err _ m Hm); intros []|exact Hl].
 Qed.
 Print Assumptions {pid}_hrevolve.
@@ -147,7 +146,7 @@ for l in open('/verif/properties.jsonl'):
 files = {}
 for pid, cls in [('C01','C01'),('C02','C02'),('C03','C03'),('C04','C04'),('C08','C08'),('C12','C12')]:
     body = HEAD % (pid, TITLES[pid]) + safety(pid, cls, '')
-    body = body.replace("From CS Require Import Actions", "From CS Require Ops RevConv RevBridge4 RevolveRun Refuted DiskRun DiskBridge3 HRevRun.\nFrom CS Require Import Actions")
+    body = body.replace("From CS Require Import Actions", "From CS Require Ops RevConv RevBridge4 RevolveRun Refuted DiskRun DiskBridge3 HRevRun HRevTop.\nFrom CS Require Import Actions")
     if pid != 'C04':
         body += disk_safety(pid, cls)
         body += hrev_safety(pid, cls)
@@ -158,10 +157,9 @@ Theorem C04_disk_revolve_only_leftover_partial : forall (N ram disk uf ub wd rd 
   exists o0 m ls, run_case (PRev RevConv.KDiskRevolve N ram disk uf ub wd rd) (DiskRun.disk_xparams N ram) (repeat Next k) = Ok (o0, m, ls) /\\ no_raise ls /\\ DiskBridge3.leftover_or_ok m.
 Proof. exact DiskRun.disk_revolve_run. Qed.
 Print Assumptions C04_disk_revolve_only_leftover_partial.
-Theorem C04_hrevolve_only_leftover_partial : forall (N ram disk uf ub wd rd : Z) (L : list Ops.op) (k : nat), 1 <= N -> 1 <= ram ->
-  RevConv.sequence RevConv.KHRevolve N ram disk uf ub wd rd = Ok L ->
+Theorem C04_hrevolve_only_leftover_partial : forall (N ram disk uf ub wd rd : Z) (k : nat), 1 <= N -> 1 <= ram -> 0 <= disk ->
   exists o0 m ls, run_case (PRev RevConv.KHRevolve N ram disk uf ub wd rd) (DiskRun.disk_xparams N ram) (repeat Next k) = Ok (o0, m, ls) /\\ no_raise ls /\\ DiskBridge3.leftover_or_ok m.
-Proof. exact HRevRun.hrevolve_run. Qed.
+Proof. exact HRevTop.hrevolve_run_total. Qed.
 Print Assumptions C04_hrevolve_only_leftover_partial.
 
 '''
@@ -177,7 +175,7 @@ Print Assumptions C04_hrevolve_only_leftover_partial.
         body += lifted('C02_revolve_terminates','RevolveRun','revolve_terminates','completeness (Revolve): the op list is finite; from some request count on the schedule is exhausted, with no error on the way and exactly TC N s forward steps executed')
         body += lifted('C02_disk_revolve_terminates','DiskRun','disk_revolve_terminates','completeness (DiskRevolve, snapshots_in_ram >= 1): the op list is finite; from 2 |ops| + 2 requests on the schedule is exhausted, nothing raised on the way, and the only executor verdict possible besides "no error" is E_leftover at the final EndReverse (D8-C04)')
         body += lifted('C02_periodic_terminates','DiskRun','periodic_terminates','completeness (PeriodicDiskRevolve): the same')
-        body += lifted('C02_hrevolve_terminates','HRevRun','hrevolve_terminates','completeness (HRevolve, when the constructor returns): the same')
+        body += lifted('C02_hrevolve_terminates','HRevTop','hrevolve_terminates_total','completeness (HRevolve): the constructor returns and the same holds')
         body += lifted('C02_mixed_terminates','MixBridge','mixed_terminates','completeness (Mixed, both planner paths): within N (N + 3) + N + 2 requests the schedule is exhausted (EndReverse has been emitted, by C09_flags), and by then exactly C N S forward steps have been executed')
     for new, mod, name, cm in PARTIAL_SAFETY:
         body += lifted(new % pid, mod, name, cm)
@@ -254,7 +252,7 @@ Proof. exact twolevel_run. Qed.
 Print Assumptions C09_twolevel_passes.
 
 """
-mk('C09', ['MSTerm','OnlineFlags','Flags','RevConv','RevBridge4','RevolveRun','PassRepeat','Online','DiskRun','DiskBridge3','HRevRun'], [
+mk('C09', ['MSTerm','OnlineFlags','Flags','RevConv','RevBridge4','RevolveRun','PassRepeat','Online','DiskRun','DiskBridge3','HRevRun','HRevTop'], [
    lifted('C09_flags','Flags','C09_flags','FLAGS, all thirteen classes, every parameter tuple the constructor accepts, every history of next() / finalize(k) requests (ops), any executor parameters: before the first request is_exhausted = is_running = False; after every next() is_running = True; is_exhausted after a request = (the final action of the class has been yielded so far) -- final_action: EndForward for None, EndReverse for the offline classes and SingleDisk(move), none for SingleMemory, SingleDisk(copy), TwoLevel; no action is yielded once the final action has been seen (only StopIteration / an exception), and finalize never changes the flag. flags_hist is the trace rule, defined in Proofs/OnlineFlags.v'),
    C09_runs,
    lifted('C09_multistage_flags_on_runs','MultistageRun','multistage_flags','the same rule read on the raise-free Multistage runs of the run theorem (every line: is_running, and is_exhausted = (the action is EndReverse), StopIteration only with is_exhausted)'),
@@ -263,7 +261,7 @@ mk('C09', ['MSTerm','OnlineFlags','Flags','RevConv','RevBridge4','RevolveRun','P
    lifted('C09_revolve_terminates','RevolveRun','revolve_terminates','the offline Revolve schedule concludes'),
    lifted('C09_disk_revolve_terminates','DiskRun','disk_revolve_terminates','the offline DiskRevolve schedule concludes (is_exhausted True after 2 |ops| + 2 requests at most)'),
    lifted('C09_periodic_terminates','DiskRun','periodic_terminates','the offline PeriodicDiskRevolve schedule concludes'),
-   lifted('C09_hrevolve_terminates','HRevRun','hrevolve_terminates','the offline HRevolve schedule concludes (when its constructor returns)'),
+   lifted('C09_hrevolve_terminates','HRevTop','hrevolve_terminates_total','the offline HRevolve schedule concludes'),
    lifted('C09_mixed_terminates','MixBridge','mixed_terminates','the offline Mixed schedule concludes: exhausted within N (N + 3) + N + 2 requests'),
    lifted('C09_passes_repeat','PassRepeat','passes_repeat','EXACT REPEAT (SingleMemory, SingleDisk copy, TwoLevel): two loop-head states of the same object (r = 0, not exhausted, same class / pc / max_n; n and -- for TwoLevel -- the emptied snapshot list may differ) emit the same outcomes for ever (outs j = the outcomes of j requests)'),
    lifted('C09_after_endreverse','PassRepeat','after_endreverse','... and the request that yields EndReverse of a non-exhausting object leaves it in such a loop head with the same class and max_n; the head reached by EndForward is of the same form (C09_*_passes give executability of every pass)'),
@@ -272,11 +270,12 @@ mk('C10', ['BasicProofs'], [lifted('C10_online','BasicProofs','C10_online','onli
    lifted('C10_known','BasicProofs','C10_known','max_n known: finalize(k) is a no-op iff k = max_n = n; state unchanged in every case'),
    lifted('C10_reject','BasicProofs','C10_reject','every other call: ValueError if k < 1 else RuntimeError, state unchanged'),
    lifted('C10_next_endforward','BasicProofs','C10_next_endforward','after a successful finalisation in the forward loop the next action is EndForward')])
-mk('C11', ['SchedProofs','UsesProofs','ExecBudget','RevConv','RevBridge4','DiskUses'], [lifted('C11_uses_never_raises','SchedProofs','uses_never_raises','uses_storage_type never raises, for every StorageType member, in every state'),
+mk('C11', ['SchedProofs','UsesProofs','ExecBudget','RevConv','RevBridge4','DiskUses','HRevUses'], [lifted('C11_uses_never_raises','SchedProofs','uses_never_raises','uses_storage_type never raises, for every StorageType member, in every state'),
    lifted('C11_touch_implies_uses','UsesProofs','touch_implies_uses','if an emitted action writes a checkpoint to RAM / DISK or copies / moves one from or to it, uses_storage_type of that storage is True: every state of the extracted objects of None, SingleMemory, SingleDisk, TwoLevel, Multistage, Mixed (well_built = counts stored in the object are those of its labels / storage is a checkpoint storage); the Revolve family is excluded from well_built (see the next two theorems)'),
    lifted('C11_revolve_touch_uses','ExecBudget','revolve_touch_uses','class Revolve, on its (error-free) runs: every yielded action that writes to / copies or moves from or to RAM or DISK finds uses_storage_type of that storage True in the observation taken right after it -- RAM needs snapshots_in_ram > 0 (the budget of the run), DISK is never touched'),
    lifted('C11_disk_touch_uses','DiskUses','disk_touch_uses','DiskRevolve and PeriodicDiskRevolve with at least one RAM snapshot (snapshots_in_ram = 0 is accepted for max_n = 1 only), every history (requests, finalize calls, Run loops in any order): RAM and DISK are reported as used at every observation, so whatever an action touches is reported as used'),
-   lifted('C11_touch_needs_budget_partial','ExecBudget','run_touch','PARTIAL (HRevolve; DiskRevolve / PeriodicDiskRevolve with snapshots_in_ram = 0): class-independent fact about the reference executor -- on any error-free monitored run the store sizes stay within the declared budgets and an action touching RAM / DISK is accepted only if that budget is positive; for HRevolve error-freeness is not proved (D8), so touched => uses rests on correspondence + oracle')])
+   lifted('C11_hrev_touch_uses','HRevUses','hrev_touch_uses','HRevolve, snapshots_in_ram >= 1 and snapshots_on_disk >= 0, every history: a touched storage is reported as used -- with a disk slot RAM and DISK are both reported; without one the op list is a memory-only block (the infinite column of optp[1]) and the converter never names DISK'),
+   lifted('C11_touch_needs_budget_partial','ExecBudget','run_touch','PARTIAL (the three disk classes with snapshots_in_ram = 0, accepted for max_n = 1 only): class-independent fact about the reference executor -- on any error-free monitored run the store sizes stay within the declared budgets and an action touching RAM / DISK is accepted only if that budget is positive; error-freeness of those runs is not proved, so touched => uses rests on correspondence + oracle')])
 mk('C13', ['TLInv','TLSweep','Online'], [
    lifted('C13_sweep_pattern','TLSweep','twolevel_sweep','FIRST CLAUSE, extracted model, every period >= 1, every binomial_snapshots, both storages, both trajectories, every number j of requests before finalisation: the observations are exactly Forward(i P, (i+1) P, write_ics, DISK) with n = (i+1) P, r = 0, max_n unknown, not exhausted, for i = 0 .. j-1'),
    """(* the whole TwoLevel run on the extracted model *)
@@ -324,13 +323,17 @@ Theorem C17_periodic_complete : forall (N ram disk uf ub wd rd : Z) (k : nat), 1
   exists o0 m ls, run_case (PRev RevConv.KPeriodic N ram disk uf ub wd rd) (DiskRun.disk_xparams N ram) (repeat Next k) = Ok (o0, m, ls) /\\ no_raise ls /\\ DiskBridge3.leftover_or_ok m.
 Proof. exact DiskRun.periodic_run. Qed.
 Print Assumptions C17_periodic_complete.
+Theorem C17_hrevolve_complete : forall (N ram disk uf ub wd rd : Z) (k : nat), 1 <= N -> 1 <= ram -> 0 <= disk ->
+  exists o0 m ls, run_case (PRev RevConv.KHRevolve N ram disk uf ub wd rd) (DiskRun.disk_xparams N ram) (repeat Next k) = Ok (o0, m, ls) /\\ no_raise ls /\\ DiskBridge3.leftover_or_ok m.
+Proof. exact HRevTop.hrevolve_run_total. Qed.
+Print Assumptions C17_hrevolve_complete.
 Theorem C17_twolevel_complete : forall (N P bs : Z) (bst : storage) (tj : traj), 1 <= N -> 1 <= P -> 0 <= bs -> bst = RAM \\/ bst = DISK -> forall k : nat,
   exists o0 m ls, run_case (PTwo P bs bst tj) (ptl N P bs bst) (repeat Next (Z.to_nat (TLBridge.Q N P)) ++ [Fin N] ++ repeat Next (S k)) = Ok (o0, m, ls) /\\ mon_ok m /\\ no_raise ls.
 Proof. exact twolevel_run. Qed.
 Print Assumptions C17_twolevel_complete.
 
 '''
-mk('C17', ['NAdv','AllocProofs','InvalidProofs','RevConv','RevBridge4','RevolveRun','RevBridge6','DiskRun','DiskBridge3','DiskGen','PeriodGen'], [C17_complete,
+mk('C17', ['NAdv','AllocProofs','InvalidProofs','RevConv','RevBridge4','RevolveRun','RevBridge6','DiskRun','DiskBridge3','DiskGen','PeriodGen','HRevTotal','HRevTop'], [C17_complete,
    lifted('C17_multistage_construct_total','AllocTotal','construct_total','the Multistage constructor returns for every tuple of the domain'),
    lifted('C17_allocate_total','AllocTotal','allocate_total','allocate_snapshots (dry run of the schedule with placeholder labels, weighing, top-k) never raises on the domain'),
    lifted('C17_n_advance_total','NAdv','n_advance_spec','n_advance never raises on its domain; range; limiting cases; optimal region'),
@@ -342,9 +345,11 @@ mk('C17', ['NAdv','AllocProofs','InvalidProofs','RevConv','RevBridge4','RevolveR
    lifted('C17_revolve_top_total','RevBridge6','revolve_top_total','the Revolve op-list generator (table + recursion) never fails on the domain'),
    lifted('C17_disk_revolve_top_total','DiskGen','disk_revolve_top_total','the DiskRevolve op-list generator (both tables + recursion) never fails on the domain'),
    lifted('C17_periodic_top_total','PeriodGen','periodic_top_total','the PeriodicDiskRevolve op-list generator never fails on the domain, and its period is mxrr'),
-   lifted('C17_revolve_family_rejects_partial','InvalidProofs','revolve_rejects','PARTIAL (Revolve family): max_n < 1 or no RAM unit for max_n > 1 is an exception at construction; that valid tuples always yield a complete stream is proved for Revolve, DiskRevolve, PeriodicDiskRevolve (C17_*_complete) but not for HRevolve (correspondence + oracle)')])
+   lifted('C17_hrevolve_total','HRevTotal','hrevolve_total','the HRevolve op-list generator never fails on the domain: get_hopt_table never indexes out of range, hrevolve_aux is never called without a slot, the recursion fuel suffices'),
+   lifted('C17_hopt_table_total','HRevTotal','hopt_table_total','get_hopt_table (K = 2) returns, with tables of the right dimensions whose column m = 0 of optp[1] is infinite from l = 2 on'),
+   lifted('C17_revolve_family_rejects_partial','InvalidProofs','revolve_rejects','PARTIAL (Revolve family): max_n < 1 or no RAM unit for max_n > 1 is an exception at construction; that valid tuples always yield a complete stream is proved for Revolve, DiskRevolve, PeriodicDiskRevolve, HRevolve (C17_*_complete); PARTIAL only in that snapshots_in_ram = 0 with max_n = 1 is not covered for the disk classes (correspondence + oracle)')])
 C18_runs = safety('C18','C18','') + disk_safety('C18','C18') + hrev_safety('C18','C18')
-mk('C18', ['Repr','Ops','RevConv','RevBridge4','RevolveRun','DiskRun','OnlineWF','HRevRun'], [C18_runs, lifted('C18_basic_wf_every_history','OnlineWF','basic_wf_every_history','NoneCheckpointSchedule, SingleMemoryStorageSchedule, SingleDiskStorageSchedule under EVERY history (requests, valid or rejected finalize calls, Run loops, in any order and number; any executor parameters): every yielded action is well formed (wf_action: the E_malformed requirements of the executor)'), lifted('C18_wf_not_malformed','OnlineWF','wf_not_malformed','wf_action is exactly what the executor needs not to report E_malformed'), lifted('C18_z_roundtrip','Repr','z_roundtrip','decimal printing of integers parses back')])
+mk('C18', ['Repr','Ops','RevConv','RevBridge4','RevolveRun','DiskRun','OnlineWF','HRevRun','HRevTop'], [C18_runs, lifted('C18_basic_wf_every_history','OnlineWF','basic_wf_every_history','NoneCheckpointSchedule, SingleMemoryStorageSchedule, SingleDiskStorageSchedule under EVERY history (requests, valid or rejected finalize calls, Run loops, in any order and number; any executor parameters): every yielded action is well formed (wf_action: the E_malformed requirements of the executor)'), lifted('C18_wf_not_malformed','OnlineWF','wf_not_malformed','wf_action is exactly what the executor needs not to report E_malformed'), lifted('C18_z_roundtrip','Repr','z_roundtrip','decimal printing of integers parses back')])
 mk('C19', ['PeriodProofs','PeriodShape'], [lifted('C19_periodic_shape','PeriodShape','periodic_shape','the whole operation sequence, every l = max_n - 1 >= 0 and cm >= 1: sweep ++ revolve(last segment) ++ (Read_disk + revolve(one period)) per disk checkpoint, last first; k disk checkpoints, written exactly while more than mx steps remain; the pieces come from the memory-only generator `revolve` on the opt_0 table (the generator of class Revolve: C07) and contain no disk operation; hence disk writes only in the sweep at 0, mx, ..., (k-1) mx, none afterwards, and each disk checkpoint is read exactly once'), lifted('C19_periodic_sweep_writes','PeriodProofs','periodic_sweep_writes','disk writes of the forward sweep are exactly at 0, m, 2m, ... while more than m steps remain'),
    lifted('C19_period_closed_form','PeriodProofs','periodic_period_closed_form','the period is beta(cm, tm) with tm the least t such that beta(cm+1, t) uf > wd + rd; independent of N')])
 
